@@ -225,6 +225,29 @@ register("C10", [
 ])
 
 
+# crop_to_largest: `crop_start_per_shape = [-(max_shape - np.asarray(_)) // 2 for _ in shapes]`, element-wise
+def _largest_start(k: Kernel, fn: ast.FunctionDef) -> str:
+    st = find_assign(fn, "crop_start_per_shape")
+    comp = st.value
+    if not (isinstance(comp, ast.ListComp) and len(comp.generators) == 1 and isinstance(comp.generators[0].target, ast.Name)
+            and ast.unparse(comp.generators[0].iter) == "shapes"):
+        raise Untranslatable(f"unexpected `crop_start_per_shape = {ast.unparse(comp)[:60]}`")
+    var = comp.generators[0].target.id
+    mx = find_assign(fn, "max_shape")
+    if ast.unparse(mx.value).replace(" ", "") != "shapes.max(axis=0)":
+        raise Untranslatable(f"unexpected `max_shape = {ast.unparse(mx.value)}`")
+    boxes = find_assign(fn, "crop_boxes")
+    if ast.unparse(boxes.value).replace(" ", "") != "[_.tolist()+max_shape.tolist()for_incrop_start_per_shape]":
+        raise Untranslatable(f"unexpected `crop_boxes = {ast.unparse(boxes.value)[:80]}`")
+    tr = ExprTr({"max_shape": "mx", var: "n", f"np.asarray({var})": "n", f"np.array({var})": "n"})
+    return emit_def(k.name, k.params, [], _vec_expr(tr, comp.elt))
+
+
+register("C10", [
+    Kernel("crop_to_largest_start", BBOX, "crop_to_largest", ["mx", "n"], "Crop.cropToLargestStart", _largest_start, imports=CROP),
+])
+
+
 # -------------------------------------------------------------------------------------------------
 # PadKspace / CropKspace / RescaleKspace (and PadCoilDimensionModule): structural tables (recipes/c10_tables.py)
 #   * the chain of calls applied to the k-space, WITH the key it is read from and stored under (helper functions are
